@@ -397,7 +397,7 @@ void World::on_close(KFd &k) {
 void World::on_timer_set(KFd &k, uint64_t ns) {
 	trace.tag("settime"); trace.u64(k.fd); trace.u64(ns);
 	if (ns == 0) { k.armed = false; k.expirations = 0; probe("timer_disarmed"); return; }
-	k.armed = true; k.armed_value = ns; k.deadline = now + ns; k.expirations = 0;
+	k.armed = true; k.armed_value = ns; k.deadline = ns > (1ULL << 62) ? (1ULL << 62) + now : now + ns; k.expirations = 0;
 	schedule(k.deadline, EV_TIMER, k.fd, (long)k.deadline);
 	if (mode == "exact") {
 		// the request being set up may belong to a message of a multi-message read that the model has not seen yet
